@@ -61,7 +61,45 @@ fn one(profile: &Profile, enc: &Encoder, node: &Node) -> Option<usize> {
     edges.iter().position(|e| e == chosen[0].edge())
 }
 
+
+/// deterministic scenario shared by the parent and a re-executed child process: forced deal, root
+/// information set witnessed and skewed, opponent choice at the root for a range of epochs
+fn root_scenario(epochs: &[usize], floor_regrets: bool) -> (String, Vec<f32>, Vec<Option<usize>>) {
+    use robopoker::mccfr::tree::Tree;
+    let enc = Encoder::default();
+    robopoker::verif::set_draw_index(Some(7));
+    let seed = enc.seed();
+    robopoker::verif::set_draw_index(None);
+    let mut tree = Tree::empty(Player::default());
+    let root_index = tree.plant(seed).index();
+    let root = tree.at(root_index);
+    let mut profile = Profile::default();
+    let branches = enc.branches(&root);
+    profile.witness(&root, &branches);
+    let bucket = root.bucket().clone();
+    let edges: Vec<Edge> = Vec::<Edge>::from(bucket.2.clone());
+    for (k, e) in edges.iter().enumerate() {
+        let w = 0.5f32.powi(k as i32) + 0.01;
+        let r = if floor_regrets && (k == 0 || k == 2) { -4.0e5 } else { 1.0 };
+        profile.verif_set_memory(&bucket, e, r, w);
+    }
+    let weights: Vec<f32> = edges.iter().map(|e| profile.weight(&bucket, e)).collect();
+    let mut out = vec![];
+    for &e in epochs {
+        profile.verif_set_epochs(e);
+        out.push(catch(std::panic::AssertUnwindSafe(|| one(&profile, &enc, &root))).flatten());
+    }
+    (key(&bucket), weights, out)
+}
+
 fn main() {
+    if std::env::var("RP_C20_CHILD").is_ok() {
+        // child mode: print the root scenario's answers and exit
+        let epochs: Vec<usize> = (0..300).collect();
+        let (_, _, ans) = root_scenario(&epochs, false);
+        println!("{}", ans.iter().map(|a| a.map(|i| i.to_string()).unwrap_or("panic".into())).collect::<Vec<_>>().join(","));
+        return;
+    }
     let a = args();
     let mut rng = Rng::new(a.seed);
     let mut run = Run::new(&a.out);
@@ -279,6 +317,56 @@ fn main() {
                 run.count("explore_any");
             }
         }
+    }
+    // ---- 5. another run of the program must make the same choices (no per-process random keys)
+    {
+        quiet_panics();
+        let epochs: Vec<usize> = (0..300).collect();
+        let (k, weights, mine) = root_scenario(&epochs, false);
+        let wbits = weights.iter().map(|w| w.to_bits().to_string()).collect::<Vec<_>>().join(" ");
+        for (e, ans) in epochs.iter().zip(mine.iter()) {
+            run.line(&format!("one {} {} {}", e, k, wbits), &ans.map(|i| i.to_string()).unwrap_or("panic".into()));
+        }
+        let mine_s = mine.iter().map(|a| a.map(|i| i.to_string()).unwrap_or("panic".into())).collect::<Vec<_>>().join(",");
+        for round in 0..2 {
+            let child = std::process::Command::new(std::env::current_exe().unwrap()).env("RP_C20_CHILD", "1").output();
+            run.evaluations += epochs.len() as u64;
+            run.spec_checked += 1;
+            match child {
+                Ok(o) if o.status.success() => {
+                    let theirs = String::from_utf8_lossy(&o.stdout).trim().to_string();
+                    if theirs != mine_s {
+                        let first = mine_s.split(',').zip(theirs.split(',')).position(|(x, y)| x != y).unwrap_or(0);
+                        run.fail("choice-differs-between-processes", &format!("forced deal, root bucket {k}, weights [{wbits}], epoch {first} (run {round})"),
+                            &format!("the same choices in every run of the program: {}", &mine_s[..mine_s.len().min(60)]), &theirs[..theirs.len().min(60)]);
+                    }
+                }
+                other => run.notes.push(format!("could not re-execute the harness as a child process: {:?}", other.map(|o| o.status))),
+            }
+            run.count("re-executed-child-process");
+        }
+    }
+    // ---- 6. late-training profile states: Prune phase, some regrets below the floor
+    {
+        let prune = robopoker::verif::CFR_PRUNNING_PHASE;
+        let epochs: Vec<usize> = (0..40).map(|i| prune + i).collect();
+        let (k, weights, first) = root_scenario(&epochs, true);
+        let wbits = weights.iter().map(|w| w.to_bits().to_string()).collect::<Vec<_>>().join(" ");
+        for (e, ans) in epochs.iter().zip(first.iter()) {
+            run.line(&format!("one {} {} {}", e, k, wbits), &ans.map(|i| i.to_string()).unwrap_or("panic".into()));
+        }
+        let mut all = vec![first.clone()];
+        for _ in 0..5 { all.push(root_scenario(&epochs, true).2); }
+        let h = std::thread::spawn(move || root_scenario(&epochs, true).2);
+        if let Ok(v) = h.join() { all.push(v); }
+        run.evaluations += 40 * all.len() as u64;
+        run.spec_checked += 1;
+        if let Some(bad) = all.iter().find(|v| **v != first) {
+            let i = bad.iter().zip(first.iter()).position(|(x, y)| x != y).unwrap_or(0);
+            run.fail("choice-not-reproducible", &format!("prune phase: epoch {} root bucket {k}, regrets of edges 0 and 2 at -4e5, weights [{wbits}], asked 7 times", prune + i),
+                &format!("{:?} every time", first[i]), &format!("{:?}", bad[i]));
+        }
+        run.count("late-epoch-prune-phase-asks");
     }
     // ---- 4. Layer::init twice / threads / rayon pools
     let npoints = if a.thorough() { 400 } else { 180 };
